@@ -178,7 +178,11 @@ def decide(name, assumptions, violation, session=None, extract=None, timeout_s=1
             r2, t2 = smt.second_opinion(q, timeout_s, second)
             res['second'] = {'solver': second, 'result': r2, 'time_s': round(t2, 3)}
             res['queries'].append({'q': f'violation@{second}', 'result': r2, 'time_s': round(t2, 3)})
-            if r2 != 'unsat':
+            if r2 == 'unknown':
+                # the cross-check did not finish within its limit: not a disagreement; the obligation stays discharged
+                # by the primary solver and is reported as not cross-checked
+                res['second']['note'] = 'second solver undecided within the time limit (not a disagreement)'
+            elif r2 != 'unsat':
                 res['status'] = INCONCLUSIVE
                 res['error'] = f'second solver {second} answered {r2} where z3 answered unsat'
     elif r['result'] == 'sat':
